@@ -34,6 +34,9 @@ pub struct SymBlock {
 
 #[derive(Clone, Debug, PartialEq, Eq, Hash)]
 pub enum SymMb {
+    /// Arbitrary (value, length) bit groups in place of a macroblock: used only by the
+    /// fault-injecting generators to put an invalid code at a chosen depth.
+    Raw(Vec<(u32, u32)>),
     NotCoded,
     Coded {
         kind: MbKind,
@@ -132,6 +135,10 @@ impl SymPicture {
 pub fn encode_event(w: &mut BitWriter, ev: &Ev, last: bool) {
     let mag = ev.level.unsigned_abs();
     match ev.esc {
+        Esc::Short if ev.level == 0 => {
+            // fault injection: a prefix that is not in Table 16
+            w.put(0, 9);
+        }
         Esc::Short => {
             let c = tcoef_short(last, ev.run, mag).expect("event not in Table 16");
             w.code(c);
@@ -182,6 +189,11 @@ pub fn dquant_code(d: i8) -> u32 {
 
 pub fn encode_mb(w: &mut BitWriter, mb: &SymMb, intra_pic: bool) {
     match mb {
+        SymMb::Raw(groups) => {
+            for g in groups {
+                w.put(g.0, g.1);
+            }
+        }
         SymMb::NotCoded => {
             assert!(!intra_pic);
             w.put(1, 1);
@@ -211,8 +223,14 @@ pub fn encode_mb(w: &mut BitWriter, mb: &SymMb, intra_pic: bool) {
             if !kind.is_intra() {
                 let n = if kind.four() { 4 } else { 1 };
                 for v in mvd.iter().take(n) {
-                    w.code(mvd_code(v[0]));
-                    w.code(mvd_code(v[1]));
+                    for c in 0..2 {
+                        if v[c] == 99 {
+                            // fault injection: thirteen zero bits are no MVD code
+                            w.put(0, 13);
+                        } else {
+                            w.code(mvd_code(v[c]));
+                        }
+                    }
                 }
             }
             for b in blocks.iter() {
